@@ -372,20 +372,43 @@ pub fn dwarf_dump<'a>(dwarf: &gimli::Dwarf<Rdr<'a>>) -> Result<DwarfDump, String
     for (ui, unit) in units.iter().enumerate() {
         let base = unit.header.offset().to_debug_info_offset(&unit.header).map(|o| o.0).unwrap_or(0);
         let mut cur = unit.entries();
-        let mut k = 0;
+        // (offset, depth, tag, marker) in section order
+        let mut seen: Vec<(usize, isize, u16, Option<u64>)> = Vec::new();
         loop {
             match cur.next_dfs() {
-                Ok(Some(e)) => {
-                    let name = match e.attr_value(gimli::DwAt(AT_MARKER)).and_then(|v| v.udata_value()) {
-                        Some(m) => format!("M{}", m),
-                        None => format!("unit{}#{}", ui, k),
-                    };
-                    by_sec.insert(base + e.offset().0, name);
-                    k += 1;
-                }
+                Ok(Some(e)) => seen.push((e.offset().0, e.depth(), e.tag().0, e.attr_value(gimli::DwAt(AT_MARKER)).and_then(|v| v.udata_value()))),
                 Ok(None) => break,
                 Err(e) => return Err(format!("entries:{}", errname(&e))),
             }
+        }
+        // unmarked entries are named by their position after the documented base-types-first reordering, so that
+        // the name of an entry does not depend on where the writer put the base types
+        let mut order: Vec<usize> = Vec::new();
+        if !seen.is_empty() {
+            let root_depth = seen[0].1;
+            let mut subtrees: Vec<Vec<usize>> = Vec::new();
+            for i in 1..seen.len() {
+                if seen[i].1 == root_depth + 1 || subtrees.is_empty() {
+                    subtrees.push(vec![i]);
+                } else {
+                    subtrees.last_mut().unwrap().push(i);
+                }
+            }
+            order.push(0);
+            for t in subtrees.iter().filter(|t| seen[t[0]].2 == 0x24) {
+                order.extend(t);
+            }
+            for t in subtrees.iter().filter(|t| seen[t[0]].2 != 0x24) {
+                order.extend(t);
+            }
+        }
+        for (k, i) in order.iter().enumerate() {
+            let (off, _, _, marker) = seen[*i];
+            let name = match marker {
+                Some(m) => format!("M{}", m),
+                None => format!("unit{}#{}", ui, k),
+            };
+            by_sec.insert(base + off, name);
         }
     }
     let endian = dwarf.debug_info.reader().endian();
